@@ -50,6 +50,8 @@ struct Config {
     deep: bool,
     /// only entries that go through the range-check chip
     range_only: bool,
+    /// only the batched small-value assignments (their layout depends on nr_pow2range_cols)
+    batches_only: bool,
 }
 
 struct Job {
@@ -150,17 +152,22 @@ fn main() {
 
     let configs: Vec<Config> = if thorough {
         vec![
-            Config { max_bit_len: 8, cols: 1, deep: true, range_only: false },
-            Config { max_bit_len: 10, cols: 1, deep: false, range_only: false },
-            Config { max_bit_len: 13, cols: 1, deep: false, range_only: false },
-            Config { max_bit_len: 8, cols: 2, deep: false, range_only: true },
-            Config { max_bit_len: 8, cols: 3, deep: false, range_only: true },
-            Config { max_bit_len: 8, cols: 4, deep: false, range_only: true },
-            Config { max_bit_len: 10, cols: 4, deep: false, range_only: true },
-            Config { max_bit_len: 13, cols: 2, deep: false, range_only: true },
+            Config { max_bit_len: 8, cols: 1, deep: true, range_only: false, batches_only: false },
+            Config { max_bit_len: 10, cols: 1, deep: false, range_only: false, batches_only: false },
+            Config { max_bit_len: 13, cols: 1, deep: false, range_only: false, batches_only: false },
+            Config { max_bit_len: 8, cols: 2, deep: false, range_only: true, batches_only: false },
+            Config { max_bit_len: 8, cols: 3, deep: false, range_only: true, batches_only: false },
+            Config { max_bit_len: 8, cols: 4, deep: false, range_only: true, batches_only: false },
+            Config { max_bit_len: 10, cols: 4, deep: false, range_only: true, batches_only: false },
+            Config { max_bit_len: 13, cols: 2, deep: false, range_only: true, batches_only: false },
         ]
     } else {
-        vec![Config { max_bit_len: 8, cols: 1, deep: false, range_only: false }]
+        vec![
+            Config { max_bit_len: 8, cols: 1, deep: false, range_only: false, batches_only: false },
+            Config { max_bit_len: 8, cols: 2, deep: false, range_only: true, batches_only: true },
+            Config { max_bit_len: 8, cols: 3, deep: false, range_only: true, batches_only: true },
+            Config { max_bit_len: 8, cols: 4, deep: false, range_only: true, batches_only: true },
+        ]
     };
 
     // ---- jobs ----
@@ -170,6 +177,9 @@ fn main() {
     for (ci, cfg) in configs.iter().enumerate() {
         for kind in cat::catalogue(cfg.deep) {
             if cfg.range_only && !kind.uses_range_checks() {
+                continue;
+            }
+            if cfg.batches_only && !matches!(kind, Kind::AssignMany { .. }) {
                 continue;
             }
             let label = kind.label();
@@ -314,7 +324,7 @@ fn main() {
         "configurations",
         json!(configs
             .iter()
-            .map(|c| json!({"max_bit_len": c.max_bit_len, "nr_pow2range_cols": c.cols, "range_only_subset": c.range_only,
+            .map(|c| json!({"max_bit_len": c.max_bit_len, "nr_pow2range_cols": c.cols, "range_only_subset": c.range_only, "batched_assignments_only": c.batches_only,
                 "catalogue": if c.deep { "thorough" } else { "quick" }, "inputs_per_entry": if c.deep { 25 } else if c.max_bit_len >= 13 { 3 } else { 6 },
                 "ars": if c.deep { "256 restarts x 10000 nodes, <=64 positions (entries with >8 outputs: 8 positions, 64 restarts)" } else { "32 restarts x 2000 nodes, 6 positions" }}))
             .collect::<Vec<_>>()),
